@@ -284,10 +284,13 @@ func Run(o *drv.Out) {
 			signCom := com
 			// deviations applied BEFORE signing (honest signers sign the deviated content: still "correctly bound")
 			// and AFTER signing (re-targeting). Choose by variant.
-			dev := r.Intn(25)
+			dev := r.Intn(26)
 			dupHeader := false
 			if v == 0 {
 				dev = -1 // the valid pair itself
+			}
+			if v == 1 {
+				dev = 25 // always: the leader's PROPOSE_VOTE justification re-labelled as a commit certificate
 			}
 			pre := func() {
 				switch dev {
@@ -306,6 +309,11 @@ func Run(o *drv.Out) {
 				case 1:
 					view.Phase = lib.Phase(r.Intn(9))
 					notes = append(notes, "phase")
+				case 25:
+					// the honest +2/3 PROPOSE_VOTE certificate every replica sees as the justification of the
+					// leader's PRECOMMIT message; applyPost re-labels it PRECOMMIT_VOTE after signing
+					view.Phase = lib.Phase_PROPOSE_VOTE
+					notes = append(notes, "relabel-phase")
 				case 2:
 					hdr.ProposerAddress = hdr.ProposerAddress[:19]
 					blkHeaderOK = false
@@ -564,6 +572,8 @@ func applyPost(dev int, qc *lib.QuorumCertificate, keys []crypto.PrivateKeyI, nm
 	case 23:
 		qc.Header.Phase = lib.Phase(r.Intn(9))
 		*notes = append(*notes, "retarget-phase")
+	case 25:
+		qc.Header.Phase = lib.Phase_PRECOMMIT_VOTE
 	}
 }
 
